@@ -21,6 +21,10 @@ def build(tier, seed):
         rshapes += [(2, 0, 2, 2), (2, 1, 2, 0), (3, 0, 0, 2), (3, 2, 0, 1), (4, 3, 0, 2)]
     for w, j, flen, dlen in rshapes:
         I.append(rcv("c15_rcv_w%d_j%d_f%d_d%d" % (w, j, flen, dlen), w, 2, j, flen, dlen=dlen, oracle=ro, b0=(65532, 65535)))
+    # a lost ACK right at the wrap must be repaired (duplicate of the last acknowledged block, then a time-out)
+    for w, b in ([(1, 65535), (2, 65534), (3, 0)] if tier == "quick" else [(1, 65535), (1, 65534), (2, 65534), (2, 65535), (3, 65533), (3, 0), (4, 65532)]):
+        I.append(rcv("c15_reack_w%d_b%d" % (w, b), w, 2, 0, 4, oracle=ro | omask("REACK"),
+                     events=[(K_DATA, 0, 2, 0), (K_TIMEOUT, None, 0, 6)], tmo=5, b0=(b, b)))
     I.append(rcv("c15_rcv_zero_w2_j1_f2_d2", 2, 2, 1, 2, dlen=2, oracle=ro, b0=(0, 0)))
     I += c18.remove_equiv("quick")
     return Check("C15", tier, I, seed, functions=WORKER_FUNCS_SND + WORKER_FUNCS_RCV, assumptions=WORKER_ASSUMPTIONS + [
